@@ -173,6 +173,13 @@ func (s *server) onAccept(conn Conn) {
 		return nil
 	})
 	s.connections.Store(fd, nconn)
+	// The connection is already registered with its poller: it may have been closed since the
+	// check above, and its close callbacks may have run before the untrack callback was added
+	// or before Store. Nothing would ever remove it from the map then.
+	if !nconn.IsActive() {
+		s.connections.Delete(fd)
+		return
+	}
 
 	// trigger onConnect asynchronously
 	nconn.onConnect()
